@@ -1,3 +1,872 @@
 package k
 
-func (r *ruleState) specOnResponse(req *ReqRec) {}
+import (
+	"encoding/json"
+	"fmt"
+	"sort"
+	"strings"
+
+	"github.com/resonatehq/resonate/internal/kernel/t_aio"
+	"github.com/resonatehq/resonate/internal/kernel/t_api"
+	"github.com/resonatehq/resonate/pkg/idempotency"
+	"github.com/resonatehq/resonate/pkg/promise"
+	"github.com/resonatehq/resonate/pkg/schedule"
+	"github.com/resonatehq/resonate/pkg/task"
+
+	"github.com/resonatehq/resonate/verif/sim/tables"
+)
+
+// This file is the sequential reference specification of the API (DESIGN.md
+// Appendix A), written from the property statements. A response is accepted
+// when there is a linearisation point — one of the states the request's own
+// store transactions saw or produced — and a server clock τ between the
+// request's submission and its response for which the specification gives
+// exactly that status and body.
+
+type cand struct {
+	st *tables.Tables
+	tr *TxRec
+}
+
+func (r *ruleState) candidates(req *ReqRec) []cand {
+	var out []cand
+	for _, tr := range req.Txs {
+		if !tr.Committed || tr.Pre == nil || tr.Post == nil {
+			continue
+		}
+		out = append(out, cand{tr.Pre, tr}, cand{tr.Post, tr})
+	}
+	return out
+}
+
+// taus lists the clock values of ticks between submission and response.
+func (r *ruleState) taus(req *ReqRec) []int64 {
+	seen := map[int64]bool{}
+	var out []int64
+	ticks := r.s.Ticks
+	i := sort.Search(len(ticks), func(i int) bool { return ticks[i] >= req.TCall })
+	for ; i < len(ticks) && ticks[i] <= req.TResp; i++ {
+		if !seen[ticks[i]] {
+			seen[ticks[i]] = true
+			out = append(out, ticks[i])
+		}
+	}
+	if len(out) > 64 {
+		// keep the ends and the values around stored deadlines
+		out = append(out[:32], out[len(out)-32:]...)
+	}
+	return out
+}
+
+// eff applies an overdue time-out to a promise row (copy).
+func eff(p *tables.Promise, tau int64) *tables.Promise {
+	if p == nil || p.State != 1 || p.Timeout > tau {
+		return p
+	}
+	c := *p
+	c.State = 16
+	if v, _ := tagOf(p, "resonate:timeout"); v == "true" {
+		c.State = 2
+	}
+	empty, none := "{}", ""
+	c.ValueHeaders, c.ValueData = &empty, &none
+	c.IkComplete = nil
+	to := p.Timeout
+	c.CompletedOn = &to
+	return &c
+}
+
+func rowSig(p *tables.Promise) string { return rowCreationSig(p) + " " + rowCompletionSig(p) }
+func bodySig(p *promise.Promise) string {
+	if p == nil {
+		return "<nil>"
+	}
+	return creationSig(p) + " " + completionSig(p)
+}
+
+func keyMatch(a *string, b *idempotency.Key) bool {
+	return a != nil && b != nil && *a == string(*b)
+}
+
+func alreadyStatus(state int) t_api.StatusCode {
+	switch state {
+	case 2:
+		return t_api.StatusPromiseAlreadyResolved
+	case 4:
+		return t_api.StatusPromiseAlreadyRejected
+	case 8:
+		return t_api.StatusPromiseAlreadyCanceled
+	}
+	return t_api.StatusPromiseAlreadyTimedout
+}
+
+// wrote reports whether one of the request's committed transactions contains
+// a command of the given kind that changed rows.
+func wrote(req *ReqRec, kinds ...t_aio.StoreKind) *TxRec {
+	for _, tr := range req.Txs {
+		if !tr.Committed || tr.Results == nil {
+			continue
+		}
+		for i, c := range tr.Tx.Commands {
+			for _, k := range kinds {
+				if c.Kind != k || i >= len(tr.Results) || tr.Results[i] == nil {
+					continue
+				}
+				res := tr.Results[i]
+				var n int64
+				switch k {
+				case t_aio.CreatePromise:
+					n = res.CreatePromise.RowsAffected
+				case t_aio.CreatePromiseAndTask:
+					n = res.CreatePromiseAndTask.PromiseRowsAffected
+				case t_aio.UpdatePromise:
+					n = res.UpdatePromise.RowsAffected
+				case t_aio.CreateCallback:
+					n = res.CreateCallback.RowsAffected
+				case t_aio.CreateSchedule:
+					n = res.CreateSchedule.RowsAffected
+				case t_aio.DeleteSchedule:
+					n = res.DeleteSchedule.RowsAffected
+				case t_aio.AcquireLock:
+					n = res.AcquireLock.RowsAffected
+				case t_aio.ReleaseLock:
+					n = res.ReleaseLock.RowsAffected
+				case t_aio.UpdateTask:
+					n = res.UpdateTask.RowsAffected
+				}
+				if n > 0 {
+					return tr
+				}
+			}
+		}
+	}
+	return nil
+}
+
+func (r *ruleState) specFail(req *ReqRec, props []string, why string) {
+	r.s.violate("spec."+req.Req.Kind.String(), props, req.Req.Kind.String(), fmt.Sprintf("status=%d", req.Status()), fmt.Sprintf("%s: request %s = %s; response %v; %s", req.Tag, req.Req.Kind, req.Req, req.Res, why))
+}
+
+func (r *ruleState) specOnResponse(req *ReqRec) {
+	s := r.s
+	if req.Req == nil {
+		return
+	}
+	// C04 (a): black box on the response clock
+	if req.Res != nil {
+		var shown []*promise.Promise
+		switch req.Res.Kind {
+		case t_api.ReadPromise:
+			shown = append(shown, req.Res.ReadPromise.Promise)
+		case t_api.CreatePromise:
+			shown = append(shown, req.Res.CreatePromise.Promise)
+		case t_api.CreatePromiseAndTask:
+			shown = append(shown, req.Res.CreatePromiseAndTask.Promise)
+		case t_api.CompletePromise:
+			shown = append(shown, req.Res.CompletePromise.Promise)
+		case t_api.SearchPromises:
+			shown = req.Res.SearchPromises.Promises
+		}
+		for _, p := range shown {
+			if p == nil {
+				continue
+			}
+			if p.State == promise.Pending && p.Timeout <= req.TResp {
+				s.violate("C04.a.pending_after_deadline", P("C04"), req.Req.Kind.String(), fmt.Sprintf("status=%d", req.Status()), fmt.Sprintf("%s answered at clock %d shows promise %q pending with timeout %d", req.Tag, req.TResp, p.Id, p.Timeout))
+			}
+			timedOut := p.State == promise.Timedout || (p.State == promise.Resolved && p.Tags["resonate:timeout"] == "true" && p.CompletedOn != nil && *p.CompletedOn == p.Timeout && len(p.Value.Data) == 0 && p.IdempotencyKeyForComplete == nil)
+			if timedOut && p.Timeout > req.TResp {
+				s.violate("C04.e.timedout_before_deadline", P("C04"), req.Req.Kind.String(), fmt.Sprintf("status=%d", req.Status()), fmt.Sprintf("%s answered at clock %d shows promise %q timed out with timeout %d", req.Tag, req.TResp, p.Id, p.Timeout))
+			}
+			if p.State == promise.Timedout && (len(p.Value.Data) != 0 || len(p.Value.Headers) != 0 || p.CompletedOn == nil || *p.CompletedOn != p.Timeout) {
+				s.violate("C04.f.timedout_shape", P("C04"), req.Req.Kind.String(), fmt.Sprintf("status=%d", req.Status()), fmt.Sprintf("%s shows timed-out promise with value or completion time != timeout: %s", req.Tag, p))
+			}
+		}
+	}
+	if req.Err != nil {
+		r.specOnError(req)
+		return
+	}
+	cands := r.candidates(req)
+	taus := r.taus(req)
+	if len(taus) == 0 {
+		taus = []int64{req.TResp}
+	}
+	needCands := true
+	switch req.Req.Kind {
+	case t_api.CreateCallback:
+		if req.Req.CreateCallback.PromiseId == req.Req.CreateCallback.RootPromiseId {
+			needCands = false
+		}
+	case t_api.SearchPromises, t_api.SearchSchedules:
+		r.searchOnResponse(req)
+		return
+	}
+	if needCands && len(cands) == 0 {
+		s.Probes["spec_unattributable"]++
+		return
+	}
+	s.Probes["spec_checked"]++
+	switch req.Req.Kind {
+	case t_api.ReadPromise:
+		r.specReadPromise(req, cands, taus)
+	case t_api.CreatePromise, t_api.CreatePromiseAndTask:
+		r.specCreatePromise(req, cands, taus)
+	case t_api.CompletePromise:
+		r.specCompletePromise(req, cands, taus)
+	case t_api.CreateCallback, t_api.CreateSubscription:
+		r.specRegistration(req, cands, taus)
+	case t_api.ReadSchedule, t_api.CreateSchedule, t_api.DeleteSchedule:
+		r.specSchedule(req, cands, taus)
+	case t_api.AcquireLock, t_api.ReleaseLock, t_api.HeartbeatLocks:
+		r.specLock(req, cands, taus)
+	case t_api.ClaimTask, t_api.CompleteTask, t_api.HeartbeatTasks:
+		r.specTask(req, cands, taus)
+	}
+}
+
+// specOnError: replies carrying an error are "maybe effect": the effect is one
+// whole write transaction or nothing; only explicit platform codes are allowed.
+func (r *ruleState) specOnError(req *ReqRec) {
+	s := r.s
+	code := req.Status()
+	if req.Req.Kind == t_api.CreatePromiseAndTask && code == int(t_api.StatusPromiseRecvNotFound) {
+		// refused rather than half-done
+		if tr := wrote(req, t_aio.CreatePromise, t_aio.CreatePromiseAndTask); tr != nil {
+			s.violate("spec.create_with_task_half_done", P("C08", "C02"), req.Req.Kind.String(), "refused but created", fmt.Sprintf("%s was refused (%d) but created a row", req.Tag, code))
+		}
+		s.Probes["create_with_task_refused"]++
+		return
+	}
+	if code < 50000 || code > 59999 {
+		s.violate("spec.error_code", P("C12", "C02"), req.Req.Kind.String(), fmt.Sprintf("status=%d", code), fmt.Sprintf("%s: error reply with a non-platform code: %v", req.Tag, req.Err))
+	}
+	s.Probes["error_reply"]++
+}
+
+// ------------------------------------------------------------------ promises
+
+func (r *ruleState) specReadPromise(req *ReqRec, cands []cand, taus []int64) {
+	id := req.Req.ReadPromise.Id
+	res := req.Res.ReadPromise
+	for _, c := range cands {
+		row := c.st.Promises[id]
+		if row == nil {
+			if res.Status == t_api.StatusPromiseNotFound && res.Promise == nil {
+				return
+			}
+			continue
+		}
+		if res.Status != t_api.StatusOK || res.Promise == nil {
+			continue
+		}
+		for _, tau := range taus {
+			if rowSig(eff(row, tau)) == bodySig(res.Promise) {
+				return
+			}
+		}
+	}
+	r.specFail(req, P("C02", "C01"), "no state seen by the request and no clock in its interval explains the reply; states: "+describePromise(cands, id))
+}
+
+func describePromise(cands []cand, id string) string {
+	var parts []string
+	seen := map[string]bool{}
+	for _, c := range cands {
+		d := "absent"
+		if row := c.st.Promises[id]; row != nil {
+			d = row.String()
+		}
+		if !seen[d] {
+			seen[d] = true
+			parts = append(parts, d)
+		}
+	}
+	return strings.Join(parts, " | ")
+}
+
+func (r *ruleState) specCreatePromise(req *ReqRec, cands []cand, taus []int64) {
+	var cr *t_api.CreatePromiseRequest
+	var status t_api.StatusCode
+	var body *promise.Promise
+	var tbody *task.Task
+	withTask := req.Req.Kind == t_api.CreatePromiseAndTask
+	if withTask {
+		cr = req.Req.CreatePromiseAndTask.Promise
+		status, body, tbody = req.Res.CreatePromiseAndTask.Status, req.Res.CreatePromiseAndTask.Promise, req.Res.CreatePromiseAndTask.Task
+	} else {
+		cr = req.Req.CreatePromise
+		status, body = req.Res.CreatePromise.Status, req.Res.CreatePromise.Promise
+	}
+	created := wrote(req, t_aio.CreatePromise, t_aio.CreatePromiseAndTask)
+	if (status == t_api.StatusCreated) != (created != nil) {
+		r.specFail(req, P("C02", "C03"), fmt.Sprintf("status says created=%v but the request's transactions created=%v", status == t_api.StatusCreated, created != nil))
+		return
+	}
+	if created != nil {
+		if created.Pre == nil || created.Post == nil {
+			return
+		}
+		if created.Pre.Promises[cr.Id] != nil {
+			r.specFail(req, P("C02", "C03"), "created although the promise existed")
+			return
+		}
+		row := created.Post.Promises[cr.Id]
+		if row == nil || body == nil || rowSig(row) != bodySig(body) {
+			r.specFail(req, P("C02", "C01", "C20"), fmt.Sprintf("body differs from the created row %v", row))
+			return
+		}
+		want := &promise.Promise{Id: cr.Id, State: promise.Pending, Param: cr.Param, Timeout: cr.Timeout, IdempotencyKeyForCreate: cr.IdempotencyKey, Tags: cr.Tags, CreatedOn: body.CreatedOn}
+		if creationSig(want) != creationSig(body) || body.State != promise.Pending {
+			r.specFail(req, P("C02", "C20"), "created promise differs from the request: want "+creationSig(want))
+			return
+		}
+		if body.CreatedOn == nil || *body.CreatedOn < req.TCall || *body.CreatedOn > req.TResp {
+			r.specFail(req, P("C02"), "creation time outside the request interval")
+			return
+		}
+		if withTask {
+			trow := created.Post.Tasks["__invoke:"+cr.Id]
+			tq := req.Req.CreatePromiseAndTask.Task
+			if trow == nil || tbody == nil || trow.State != 4 || sderef(trow.ProcessId) != tq.ProcessId || trow.Counter != 1 || trow.Ttl != int64(tq.Ttl) || trow.ExpiresAt-trow.Ttl < req.TCall || trow.ExpiresAt-trow.Ttl > req.TResp ||
+				tbody.Id != trow.Id || tbody.Counter != 1 || tbody.Timeout != cr.Timeout {
+				r.specFail(req, P("C02", "C08", "C07"), fmt.Sprintf("task created with the promise is not claimed by the caller as requested: row %v body %v", trow, tbody))
+			}
+		}
+		return
+	}
+	// existing promise
+	for _, c := range cands {
+		row := c.st.Promises[cr.Id]
+		if row == nil {
+			continue
+		}
+		for _, tau := range taus {
+			p := eff(row, tau)
+			want := t_api.StatusPromiseAlreadyExists
+			if keyMatch(p.IkCreate, cr.IdempotencyKey) && !(cr.Strict && p.State != 1) {
+				want = t_api.StatusOK
+			}
+			if status == want && body != nil && rowSig(p) == bodySig(body) && tbody == nil {
+				return
+			}
+		}
+	}
+	r.specFail(req, P("C02", "C03"), "no state seen by the request explains the reply; states: "+describePromise(cands, cr.Id))
+}
+
+func (r *ruleState) specCompletePromise(req *ReqRec, cands []cand, taus []int64) {
+	cp := req.Req.CompletePromise
+	res := req.Res.CompletePromise
+	// did this request install the caller's state?
+	var installed *TxRec
+	for _, tr := range req.Txs {
+		if !tr.Committed || tr.Results == nil {
+			continue
+		}
+		for i, c := range tr.Tx.Commands {
+			if c.Kind == t_aio.UpdatePromise && i < len(tr.Results) && tr.Results[i] != nil && tr.Results[i].UpdatePromise.RowsAffected == 1 && tr.Post != nil {
+				if row := tr.Post.Promises[cp.Id]; row != nil && row.State == int(cp.State) && !(row.CompletedOn != nil && *row.CompletedOn == row.Timeout) {
+					installed = tr
+				}
+			}
+		}
+	}
+	if (res.Status == t_api.StatusCreated) != (installed != nil) {
+		r.specFail(req, P("C02", "C03"), fmt.Sprintf("status says completed-now=%v but the request's transactions installed its state=%v", res.Status == t_api.StatusCreated, installed != nil))
+		return
+	}
+	if installed != nil {
+		row := installed.Post.Promises[cp.Id]
+		pre := installed.Pre.Promises[cp.Id]
+		if pre == nil || pre.State != 1 {
+			r.specFail(req, P("C02", "C01", "C03"), "completed a promise that was not pending")
+			return
+		}
+		want := &promise.Promise{State: cp.State, Value: cp.Value, IdempotencyKeyForComplete: cp.IdempotencyKey, CompletedOn: res.Promise.CompletedOn}
+		if res.Promise == nil || rowSig(row) != bodySig(res.Promise) || completionSig(want) != completionSig(res.Promise) {
+			r.specFail(req, P("C02", "C01", "C20"), fmt.Sprintf("body differs from the completed row %v or from the request", row))
+			return
+		}
+		if res.Promise.CompletedOn == nil || *res.Promise.CompletedOn < req.TCall || *res.Promise.CompletedOn > req.TResp || *res.Promise.CompletedOn >= row.Timeout {
+			r.specFail(req, P("C02", "C04"), "completion time outside the request interval or not before the timeout")
+		}
+		return
+	}
+	for _, c := range cands {
+		row := c.st.Promises[cp.Id]
+		if row == nil {
+			if res.Status == t_api.StatusPromiseNotFound && res.Promise == nil {
+				return
+			}
+			continue
+		}
+		for _, tau := range taus {
+			p := eff(row, tau)
+			if p.State == 1 {
+				continue // a pending promise before its timeout is completed, not answered otherwise
+			}
+			var want t_api.StatusCode
+			if row.State == 1 {
+				// timed out by this very request's clock
+				switch {
+				case p.State == 2:
+					want = t_api.StatusPromiseAlreadyResolved
+				case cp.Strict:
+					want = t_api.StatusPromiseAlreadyTimedout
+				default:
+					want = t_api.StatusOK
+				}
+			} else {
+				want = alreadyStatus(p.State)
+				if (keyMatch(p.IkComplete, cp.IdempotencyKey) && !(cp.Strict && p.State != int(cp.State))) || (!cp.Strict && p.State == 16) {
+					want = t_api.StatusOK
+				}
+			}
+			if res.Status == want && res.Promise != nil && rowSig(p) == bodySig(res.Promise) {
+				return
+			}
+			// a promise timed out lazily by somebody else is reported from the row
+		}
+	}
+	r.specFail(req, P("C02", "C03"), "no state seen by the request explains the reply; states: "+describePromise(cands, cp.Id))
+}
+
+// ------------------------------------------------------------- registrations
+
+func (r *ruleState) specRegistration(req *ReqRec, cands []cand, taus []int64) {
+	var leaf, cbId string
+	var status t_api.StatusCode
+	var pbody *promise.Promise
+	var cbody interface{ String() string }
+	var cbNil bool
+	var timeout int64
+	var recv string
+	props := P("C02", "C05")
+	if req.Req.Kind == t_api.CreateCallback {
+		q := req.Req.CreateCallback
+		res := req.Res.CreateCallback
+		leaf, cbId, status, pbody, timeout, recv = q.PromiseId, "__resume:"+q.RootPromiseId+":"+q.PromiseId, res.Status, res.Promise, q.Timeout, string(q.Recv)
+		cbNil = res.Callback == nil
+		if !cbNil {
+			cbody = res.Callback
+			if res.Callback.Id != cbId || res.Callback.PromiseId != leaf || res.Callback.Timeout != timeout {
+				r.specFail(req, P("C02", "C05", "C20"), "callback body differs from the request")
+				return
+			}
+		}
+		if q.PromiseId == q.RootPromiseId {
+			if status != t_api.StatusCallbackInvalidPromise || len(req.Txs) != 0 {
+				r.specFail(req, props, "self-referential callback must be refused without touching the store")
+			}
+			return
+		}
+	} else {
+		q := req.Req.CreateSubscription
+		res := req.Res.CreateSubscription
+		leaf, cbId, status, pbody, timeout, recv = q.PromiseId, "__notify:"+q.PromiseId+":"+q.Id, res.Status, res.Promise, q.Timeout, string(q.Recv)
+		cbNil = res.Callback == nil
+		if !cbNil {
+			cbody = res.Callback
+			if res.Callback.Id != cbId || res.Callback.PromiseId != leaf || res.Callback.Timeout != timeout {
+				r.specFail(req, P("C02", "C05", "C20"), "subscription body differs from the request")
+				return
+			}
+		}
+	}
+	_ = cbody
+	created := wrote(req, t_aio.CreateCallback)
+	if (status == t_api.StatusCreated) != (created != nil) {
+		r.specFail(req, props, fmt.Sprintf("status says registered=%v but the request's transactions registered=%v", status == t_api.StatusCreated, created != nil))
+		return
+	}
+	if created != nil {
+		if created.Pre == nil {
+			return
+		}
+		row := created.Pre.Promises[leaf]
+		cb := created.Post.Callbacks[cbId]
+		if row == nil || row.State != 1 || created.Pre.Callbacks[cbId] != nil || cb == nil {
+			r.specFail(req, props, "registration stored although the promise was not pending or the registration existed")
+			return
+		}
+		if cbNil || pbody == nil || rowSig(row) != bodySig(pbody) {
+			r.specFail(req, props, "reply to a new registration must carry the registration and the pending promise")
+			return
+		}
+		if sderef(cb.Recv) != recv || cb.Timeout != timeout || cb.CreatedOn < req.TCall || cb.CreatedOn > req.TResp {
+			r.specFail(req, P("C05", "C20"), fmt.Sprintf("stored registration differs from the request: %s", cb))
+		}
+		r.s.Probes["registration_created"]++
+		return
+	}
+	for _, c := range cands {
+		row := c.st.Promises[leaf]
+		if row == nil {
+			if status == t_api.StatusPromiseNotFound && pbody == nil && cbNil {
+				return
+			}
+			continue
+		}
+		if status != t_api.StatusOK || !cbNil || pbody == nil {
+			continue
+		}
+		if row.State != 1 {
+			// already completed: the caller need not wait
+			if rowSig(row) == bodySig(pbody) {
+				r.s.Probes["registration_on_completed"]++
+				return
+			}
+			continue
+		}
+		// pending: 200 only when the registration (or the task it became) exists
+		if rowSig(row) == bodySig(pbody) && (c.st.Callbacks[cbId] != nil) {
+			r.s.Probes["registration_repeated"]++
+			return
+		}
+	}
+	r.specFail(req, props, fmt.Sprintf("no state seen by the request explains the reply (registration %q); states: %s", cbId, describePromise(cands, leaf)))
+}
+
+// ------------------------------------------------------------------ schedules
+
+func schedRowSig(x *tables.Schedule) string {
+	return fmt.Sprintf("id=%q desc=%q cron=%q tags={%s} pid=%q pto=%d pph={%s} ppd=%q ptags={%s} last=%s next=%d ik=%s created=%d",
+		x.Id, sderef(x.Description), x.Cron, normJSONMap(x.Tags), x.PromiseId, x.PromiseTimeout, normJSONMap(x.PromiseParamHeaders), sderef(x.PromiseParamData), normJSONMap(x.PromiseTags), i64Str(x.LastRunTime), x.NextRunTime, keyStr(x.IdempotencyKey), x.CreatedOn)
+}
+
+func schedBodySig(x *schedule.Schedule) string {
+	if x == nil {
+		return "<nil>"
+	}
+	return fmt.Sprintf("id=%q desc=%q cron=%q tags={%s} pid=%q pto=%d pph={%s} ppd=%q ptags={%s} last=%s next=%d ik=%s created=%d",
+		x.Id, x.Description, x.Cron, normMap(x.Tags), x.PromiseId, x.PromiseTimeout, normMap(x.PromiseParam.Headers), string(x.PromiseParam.Data), normMap(x.PromiseTags), i64Str(x.LastRunTime), x.NextRunTime, keyStr(x.IdempotencyKey), x.CreatedOn)
+}
+
+func (r *ruleState) specSchedule(req *ReqRec, cands []cand, taus []int64) {
+	props := P("C02", "C10")
+	switch req.Req.Kind {
+	case t_api.ReadSchedule:
+		id := req.Req.ReadSchedule.Id
+		res := req.Res.ReadSchedule
+		for _, c := range cands {
+			row := c.st.Schedules[id]
+			if row == nil && res.Status == t_api.StatusScheduleNotFound && res.Schedule == nil {
+				return
+			}
+			if row != nil && res.Status == t_api.StatusOK && schedRowSig(row) == schedBodySig(res.Schedule) {
+				return
+			}
+		}
+		r.specFail(req, props, "no state seen by the request explains the reply")
+	case t_api.DeleteSchedule:
+		id := req.Req.DeleteSchedule.Id
+		res := req.Res.DeleteSchedule
+		deleted := wrote(req, t_aio.DeleteSchedule)
+		if (res.Status == t_api.StatusNoContent) != (deleted != nil) {
+			r.specFail(req, props, "status and effect disagree")
+			return
+		}
+		if deleted != nil {
+			if deleted.Pre != nil && (deleted.Pre.Schedules[id] == nil || deleted.Post.Schedules[id] != nil) {
+				r.specFail(req, props, "deletion did not remove an existing schedule")
+			}
+			return
+		}
+		for _, c := range cands {
+			if c.st.Schedules[id] == nil && res.Status == t_api.StatusScheduleNotFound {
+				return
+			}
+		}
+		r.specFail(req, props, "not-found reply although the schedule existed in every state seen")
+	case t_api.CreateSchedule:
+		q := req.Req.CreateSchedule
+		res := req.Res.CreateSchedule
+		created := wrote(req, t_aio.CreateSchedule)
+		if (res.Status == t_api.StatusCreated) != (created != nil) {
+			r.specFail(req, props, "status and effect disagree")
+			return
+		}
+		if created != nil {
+			if created.Post == nil {
+				return
+			}
+			row := created.Post.Schedules[q.Id]
+			if created.Pre.Schedules[q.Id] != nil || row == nil || schedRowSig(row) != schedBodySig(res.Schedule) {
+				r.specFail(req, P("C02", "C10", "C20"), fmt.Sprintf("body differs from the created row %v", row))
+			}
+			return
+		}
+		for _, c := range cands {
+			row := c.st.Schedules[q.Id]
+			if row == nil {
+				continue
+			}
+			want := t_api.StatusScheduleAlreadyExists
+			if keyMatch(row.IdempotencyKey, q.IdempotencyKey) {
+				want = t_api.StatusOK
+			}
+			if res.Status == want && schedRowSig(row) == schedBodySig(res.Schedule) {
+				return
+			}
+		}
+		r.specFail(req, props, "no state seen by the request explains the reply")
+	}
+}
+
+// ---------------------------------------------------------------------- locks
+
+func (r *ruleState) specLock(req *ReqRec, cands []cand, taus []int64) {
+	props := P("C02", "C09")
+	switch req.Req.Kind {
+	case t_api.AcquireLock:
+		q := req.Req.AcquireLock
+		res := req.Res.AcquireLock
+		got := wrote(req, t_aio.AcquireLock)
+		if (res.Status == t_api.StatusCreated) != (got != nil) {
+			r.specFail(req, props, "status and effect disagree")
+			return
+		}
+		if got != nil {
+			if got.Pre == nil {
+				return
+			}
+			pre := got.Pre.Locks[q.ResourceId]
+			post := got.Post.Locks[q.ResourceId]
+			if pre != nil && pre.ExecutionId != q.ExecutionId {
+				r.specFail(req, props, fmt.Sprintf("acquired a lock held by another execution: %s", pre))
+				return
+			}
+			l := res.Lock
+			if post == nil || l == nil || l.ResourceId != post.ResourceId || l.ExecutionId != post.ExecutionId || l.ProcessId != post.ProcessId || l.Ttl != post.Ttl || l.ExpiresAt != post.ExpiresAt ||
+				l.ExecutionId != q.ExecutionId || l.ProcessId != q.ProcessId || l.Ttl != q.Ttl || l.ExpiresAt-l.Ttl < req.TCall || l.ExpiresAt-l.Ttl > req.TResp {
+				r.specFail(req, props, fmt.Sprintf("lock body differs from the stored lock %v or from the request", post))
+			}
+			return
+		}
+		if res.Status != t_api.StatusLockAlreadyAcquired {
+			r.specFail(req, props, "refusal must be lock-already-acquired")
+			return
+		}
+		for _, c := range cands {
+			if l := c.st.Locks[q.ResourceId]; l != nil && l.ExecutionId != q.ExecutionId {
+				return
+			}
+		}
+		r.specFail(req, props, "refused although the lock was free or held by the caller in every state seen")
+	case t_api.ReleaseLock:
+		q := req.Req.ReleaseLock
+		res := req.Res.ReleaseLock
+		got := wrote(req, t_aio.ReleaseLock)
+		if (res.Status == t_api.StatusNoContent) != (got != nil) {
+			r.specFail(req, props, "status and effect disagree")
+			return
+		}
+		if got != nil {
+			if got.Pre != nil {
+				if pre := got.Pre.Locks[q.ResourceId]; pre == nil || pre.ExecutionId != q.ExecutionId || got.Post.Locks[q.ResourceId] != nil {
+					r.specFail(req, props, "release removed a lock not held by the caller, or did not remove it")
+				}
+			}
+			return
+		}
+		if res.Status != t_api.StatusLockNotFound {
+			r.specFail(req, props, "refusal must be lock-not-found")
+			return
+		}
+		for _, c := range cands {
+			if l := c.st.Locks[q.ResourceId]; l == nil || l.ExecutionId != q.ExecutionId {
+				return
+			}
+		}
+		r.specFail(req, props, "not-found although the caller held the lock in every state seen")
+	case t_api.HeartbeatLocks:
+		q := req.Req.HeartbeatLocks
+		res := req.Res.HeartbeatLocks
+		if res.Status != t_api.StatusOK {
+			r.specFail(req, props, "heartbeat must answer ok")
+			return
+		}
+		for _, c := range cands {
+			n := int64(0)
+			for _, l := range c.st.Locks {
+				if l.ProcessId == q.ProcessId {
+					n++
+				}
+			}
+			if n == res.LocksAffected {
+				return
+			}
+		}
+		r.specFail(req, props, "affected count matches no state seen")
+	}
+}
+
+// ---------------------------------------------------------------------- tasks
+
+func taskBodyMatches(b *task.Task, row *tables.Task) bool {
+	return b != nil && row != nil && b.Id == row.Id && int64(b.Counter) == row.Counter && b.Timeout == row.Timeout && tables.EqS(b.ProcessId, row.ProcessId) && int(b.State) == row.State
+}
+
+func (r *ruleState) specTask(req *ReqRec, cands []cand, taus []int64) {
+	props := P("C02", "C07")
+	switch req.Req.Kind {
+	case t_api.ClaimTask:
+		q := req.Req.ClaimTask
+		res := req.Res.ClaimTask
+		var claimed *TxRec
+		for _, tr := range req.Txs {
+			if tr.Committed && tr.Pre != nil {
+				a, b := tr.Pre.Tasks[q.Id], tr.Post.Tasks[q.Id]
+				if a != nil && b != nil && a.State != 4 && b.State == 4 {
+					claimed = tr
+				}
+			}
+		}
+		if (res.Status == t_api.StatusCreated) != (claimed != nil) {
+			if claimed == nil && wrote(req, t_aio.UpdateTask) != nil {
+				return // unattributable
+			}
+			r.specFail(req, props, fmt.Sprintf("status says claimed=%v but the request's transactions claimed=%v", res.Status == t_api.StatusCreated, claimed != nil))
+			return
+		}
+		if claimed != nil {
+			pre, post := claimed.Pre.Tasks[q.Id], claimed.Post.Tasks[q.Id]
+			if !(pre.State == 1 || pre.State == 2) || pre.Counter != int64(q.Counter) {
+				r.specFail(req, props, fmt.Sprintf("claim succeeded on %s", pre))
+				return
+			}
+			if !taskBodyMatches(res.Task, post) || sderef(post.ProcessId) != q.ProcessId {
+				r.specFail(req, props, fmt.Sprintf("task body differs from the claimed row %s", post))
+				return
+			}
+			// payload: promises as of some instant from the claim on
+			var m struct{ Type, Root, Leaf string }
+			if post.Mesg != nil {
+				_ = json.Unmarshal([]byte(*post.Mesg), &m)
+			}
+			okRoot, okLeaf := false, m.Type != "resume"
+			after := false
+			for _, c := range cands {
+				if c.tr == claimed {
+					after = true
+				}
+				if !after {
+					continue
+				}
+				if row := c.st.Promises[m.Root]; (row == nil && res.RootPromise == nil) || (row != nil && res.RootPromise != nil && rowSig(row) == bodySig(res.RootPromise)) {
+					okRoot = true
+				}
+				if m.Type == "resume" {
+					if row := c.st.Promises[m.Leaf]; (row == nil && res.LeafPromise == nil) || (row != nil && res.LeafPromise != nil && rowSig(row) == bodySig(res.LeafPromise)) {
+						okLeaf = true
+					}
+				}
+			}
+			if !okRoot || !okLeaf {
+				r.specFail(req, P("C02", "C07", "C01", "C20"), "claim payload matches no state from the claim on")
+			}
+			wantRoot := fmt.Sprintf("%s/promises/%s", r.s.Cfg.Url, m.Root)
+			if res.RootPromiseHref != wantRoot {
+				r.specFail(req, P("C20", "C19"), "root promise link")
+			}
+			r.s.Probes["claim_succeeded"]++
+			return
+		}
+		for _, c := range cands {
+			row := c.st.Tasks[q.Id]
+			if row == nil {
+				if res.Status == t_api.StatusTaskNotFound {
+					return
+				}
+				continue
+			}
+			allowed := map[t_api.StatusCode]bool{}
+			if row.State == 4 {
+				allowed[t_api.StatusTaskAlreadyClaimed] = true
+			}
+			if row.State == 8 || row.State == 16 {
+				allowed[t_api.StatusTaskAlreadyCompleted] = true
+			}
+			if row.Counter != int64(q.Counter) {
+				allowed[t_api.StatusTaskInvalidCounter] = true
+			}
+			if allowed[res.Status] {
+				if res.Status == t_api.StatusTaskInvalidCounter {
+					r.s.Probes["claim_stale_counter"]++
+				}
+				return
+			}
+		}
+		r.specFail(req, props, "refusal matches no state seen (a claimable task with the current counter must be granted)")
+	case t_api.CompleteTask:
+		q := req.Req.CompleteTask
+		res := req.Res.CompleteTask
+		var done *TxRec
+		for _, tr := range req.Txs {
+			if tr.Committed && tr.Pre != nil {
+				a, b := tr.Pre.Tasks[q.Id], tr.Post.Tasks[q.Id]
+				if a != nil && b != nil && a.State == 4 && b.State == 8 {
+					done = tr
+				}
+			}
+		}
+		if (res.Status == t_api.StatusCreated) != (done != nil) {
+			if done == nil && wrote(req, t_aio.UpdateTask) != nil {
+				return
+			}
+			r.specFail(req, props, "status and effect disagree")
+			return
+		}
+		if done != nil {
+			pre := done.Pre.Tasks[q.Id]
+			if pre.Counter != int64(q.Counter) {
+				r.specFail(req, props, fmt.Sprintf("completion with counter %d succeeded on %s", q.Counter, pre))
+			}
+			return
+		}
+		for _, c := range cands {
+			row := c.st.Tasks[q.Id]
+			if row == nil {
+				if res.Status == t_api.StatusTaskNotFound {
+					return
+				}
+				continue
+			}
+			switch {
+			case row.State == 8 || row.State == 16:
+				if res.Status == t_api.StatusOK {
+					return
+				}
+			case row.State == 1 || row.State == 2:
+				if res.Status == t_api.StatusTaskInvalidState {
+					return
+				}
+			case row.Counter != int64(q.Counter):
+				if res.Status == t_api.StatusTaskInvalidCounter {
+					return
+				}
+			}
+		}
+		r.specFail(req, props, "reply matches no state seen")
+	case t_api.HeartbeatTasks:
+		q := req.Req.HeartbeatTasks
+		res := req.Res.HeartbeatTasks
+		if res.Status != t_api.StatusOK {
+			r.specFail(req, props, "heartbeat must answer ok")
+			return
+		}
+		for _, c := range cands {
+			n := int64(0)
+			for _, t := range c.st.Tasks {
+				if t.State == 4 && sderef(t.ProcessId) == q.ProcessId && t.ProcessId != nil {
+					n++
+				}
+			}
+			if n == res.TasksAffected {
+				return
+			}
+		}
+		r.specFail(req, props, "affected count matches no state seen")
+	}
+}
